@@ -59,7 +59,8 @@ def run(tier, seed):
                                      construct_violation=True)
     E.unexpected_errors(ctx, traces, kept)
     ctx.count_clause("trace.contract.*", sum(len(t["calls"]) for t in traces))
-    ctx.sample({"direction": "B", "scenario": kept[1].key(), "call_2_order": traces[1]["calls"][1]["order"] if len(traces[1]["calls"]) > 1 else None})
+    if len(traces) > 1:
+      ctx.sample({"direction": "B", "scenario": kept[1].key(), "call_2_order": traces[1]["calls"][1]["order"] if len(traces[1]["calls"]) > 1 else None})
     E.self_test(ctx, [s for s in scs if s.names in ("str", "int")][:3])
     ctx.assume("the evaluation budget 1 + d * n_inner applies to the default (marginal) imputer; DefaultImputer "
                "evaluates the model once per imputation (1 + d)")
